@@ -30,11 +30,13 @@ use simcore::{catch, main_for, mix, stats, Check, FastRng, Obs, RngSpec, Tier, V
 /// word from the stream it is handed.
 struct Probe {
     log: RefCell<Vec<u32>>,
+    /// the harness's bound on the number of samples (a generator that never stops must not hang the run)
+    limit: std::cell::Cell<usize>,
 }
 
 impl Probe {
     fn new() -> Self {
-        Self { log: RefCell::new(Vec::new()) }
+        Self { log: RefCell::new(Vec::new()), limit: std::cell::Cell::new(usize::MAX) }
     }
 
     fn next(&self, rng: &mut (impl Rng + ?Sized)) -> u32 {
@@ -49,6 +51,17 @@ impl Probe {
 impl Distribution<u32> for Probe {
     fn sample<R: Rng + ?Sized>(&self, rng: &mut R) -> u32 {
         self.next(rng)
+    }
+}
+
+impl Distribution<()> for Probe {
+    fn sample<R: Rng + ?Sized>(&self, rng: &mut R) {
+        assert!(
+            self.log.borrow().len() < self.limit.get(),
+            "the element generator was sampled more than {} times (far more often than elements were requested)",
+            self.limit.get()
+        );
+        let _ = self.next(rng);
     }
 }
 
@@ -77,6 +90,8 @@ enum GenKind {
     Nested,
     Individual,
     Population,
+    /// `Vec<()>`: zero-sized elements (a collection whose capacity says nothing about the requested size)
+    VecUnit,
 }
 
 #[derive(Serialize, Deserialize, Clone, Debug)]
@@ -515,6 +530,15 @@ fn exec_gen(kind: GenKind, size: usize, inner: usize, by_ref: bool, spec: &RngSp
                 };
                 (vec![v.len()], v, None)
             }
+            GenKind::VecUnit => {
+                probe.limit.set(size + 16);
+                let v: Vec<()> = if by_ref {
+                    probe.to_collection_generator(size).sample(&mut rng)
+                } else {
+                    Generator::new(&probe, size).sample(&mut rng)
+                };
+                (vec![v.len()], probe.log.borrow().clone(), None)
+            }
             GenKind::Bits => {
                 let b: Bitstring = if by_ref {
                     probe.to_collection_generator(size).sample(&mut rng)
@@ -597,7 +621,7 @@ fn exec_gen(kind: GenKind, size: usize, inner: usize, by_ref: bool, spec: &RngSp
     }
     let expected_total: usize = if nested { size * inner } else { size };
     let as_seen: Vec<u32> = match kind {
-        GenKind::VecU32 | GenKind::Nested => log.clone(),
+        GenKind::VecU32 | GenKind::Nested | GenKind::VecUnit => log.clone(),
         GenKind::Bits | GenKind::Individual | GenKind::Population => log.iter().map(|x| x & 1).collect(),
         GenKind::Plushy => log.iter().map(|x| if x % 5 == 4 { u32::MAX } else { *x }).collect(),
     };
@@ -729,7 +753,7 @@ impl Check for C18 {
                 rng,
             }
         } else {
-            let kind = *g.pick(&[GenKind::VecU32, GenKind::Bits, GenKind::Plushy, GenKind::Nested, GenKind::Individual, GenKind::Population]);
+            let kind = *g.pick(&[GenKind::VecU32, GenKind::Bits, GenKind::Plushy, GenKind::Nested, GenKind::Individual, GenKind::Population, GenKind::VecUnit]);
             let nested = matches!(kind, GenKind::Nested | GenKind::Population);
             let size = match g.below(6) {
                     0 => 0,
